@@ -33,12 +33,15 @@
      Progress        read() returns Ok(0) only when everything has been delivered
      Complete        when nothing is owed any more, exactly Len(Exp) bytes were delivered
      BufInv          pos <= lim <= fed <= stream length, and lim + extra = fed outside a refill
+     TruncationSurfaces  a source that ends early (CutChoices) makes read() fail (eof / 3 / 5) unless the missing bytes
+                     were never needed; OutputOK and Complete keep holding for what was delivered
      ErrorNotLost    an input error that arrives after part of a call's bytes were decoded is reported by the next
                      call and by every call after it (at most MaxFail such errors are injected)
 *)
 EXTENDS Integers, Sequences, FiniteSets, TLC, Json
 
-CONSTANTS Inputs, FreeMode, CapSizes, ChunkSizes, CapPatterns, ChunkPatterns, Buf, MaxIntr, MaxFail
+CONSTANTS Inputs, FreeMode, CapSizes, ChunkSizes, CapPatterns, ChunkPatterns, Buf, MaxIntr, MaxFail,
+          CutChoices      \* sequence of <<main, call, jump, rc>>: bytes missing at the end of each source (truncated input)
 
 VARIABLES inp, cin, exp, d, rd, sch, hist
 vars == <<inp, cin, exp, d, rd, sch, hist>>
@@ -57,7 +60,9 @@ In == cin                  \* the current input record (= Inputs[inp], kept in a
 NTrue(bs) == Len(SelectSeq(bs, LAMBDA b : b))
 RcLenOf(x) == 5 + NTrue(x.norm)
 SLenOf(x, s) == CASE s = MAIN -> Len(x.main) [] s = CALL -> 4 * Len(x.opc) [] s = JUMP -> 4 * Len(x.opj) [] OTHER -> RcLenOf(x)
-SLen(s) == SLenOf(In, s)
+Cut(s) == CutChoices[sch.cut][s + 1]
+Max0(a) == IF a < 0 THEN 0 ELSE a
+SLen(s) == Max0(SLenOf(In, s) - Cut(s))          \* what the source really delivers
 OpMsbOf(x, kind, idx) == IF kind = CALL THEN x.opc[idx] ELSE x.opj[idx]
 OpMsb(kind, idx) == OpMsbOf(In, kind, idx)
 
@@ -221,7 +226,9 @@ Pat(ps, idx, n) == LET p == ps[idx] IN p[(n % Len(p)) + 1]
 NextCaps == IF FreeMode THEN CapSizes ELSE {Pat(CapPatterns, sch.cap, rd.calls)}
 NextChunks(s) == IF FreeMode THEN ChunkSizes ELSE {Pat(ChunkPatterns, sch.ch[s], sch.n[s])}
 
-Done == rd.pc = "idle" /\ (rd.rem = 0 \/ (rd.err # "" /\ rd.last = Err(rd.err)))
+Truncated == \E s \in Streams : Cut(s) > 0
+FinalErr == rd.last[1] = "err" /\ rd.last[2] \in {"eof", "3", "4", "5"}
+Done == rd.pc = "idle" /\ (rd.rem = 0 \/ (rd.err # "" /\ rd.last = Err(rd.err)) \/ FinalErr)
 Log == hist' = IF ~FreeMode /\ rd'.pc = "idle" THEN Append(hist, <<rd'.last, d'.st, rd'.rem>>) ELSE hist
 
 Call == ~Done /\ \E cap \in NextCaps : CallP(cap) /\ UNCHANGED sch /\ Log
@@ -247,7 +254,8 @@ Init ==
   /\ rd = R0(exp)
   /\ sch \in [cap : IF FreeMode THEN {1} ELSE DOMAIN CapPatterns,
               ch : [Streams -> IF FreeMode THEN {1} ELSE DOMAIN ChunkPatterns],
-              n : {[s \in Streams |-> 0]}]
+              n : {[s \in Streams |-> 0]},
+              cut : DOMAIN CutChoices]
   /\ hist = <<>>
 Spec == Init /\ [][Next]_vars
 
@@ -256,7 +264,9 @@ TypeOK ==
   /\ d.st \in 0..9 /\ d.rinit \in 0..6 /\ d.need \in BOOLEAN /\ d.k \in 0..Len(In.flags)
   /\ rd.pc \in {"idle", "run", "refill"} /\ rd.rem \in 0..Len(Exp)
 OutputOK == d.ok
-NoSpuriousError == rd.last[1] = "err" => (rd.last[2] = "intr" \/ (rd.last[2] = "hard" /\ rd.fails > 0))
+NoSpuriousError == (rd.last[1] = "err" /\ ~Truncated) => (rd.last[2] = "intr" \/ (rd.last[2] = "hard" /\ rd.fails > 0))
+\* a truncated input ends in an error unless the missing bytes were never needed; what was delivered before is right (OutputOK)
+TruncationSurfaces == (Truncated /\ Done) => (rd.rem = 0 \/ rd.last[1] = "err")
 \* an input error is never lost: once one is owed, no call reports success any more
 ErrorNotLost == rd.err # "" => (rd.pc = "idle" /\ (rd.last = Err(rd.err) \/ (rd.last[1] = "ok" /\ rd.last[2] > 0)))
 Progress == rd.last = Ok(0) => rd.rem = 0
@@ -290,5 +300,5 @@ WitnessJccAcrossCalls == ~(d.t3 = "F" /\ rd.pc = "idle" /\ rd.rem > 0 /\ d.pos[M
 
 \* export of the deterministic (pattern mode) behaviours with the predicted result of every call
 Export == (Done /\ ~FreeMode) =>
-  PrintT(ToJson([script |-> inp, cap |-> sch.cap, ch |-> <<sch.ch[0], sch.ch[1], sch.ch[2], sch.ch[3]>>, hist |-> hist]))
+  PrintT(ToJson([script |-> inp, cap |-> sch.cap, ch |-> <<sch.ch[0], sch.ch[1], sch.ch[2], sch.ch[3]>>, cut |-> sch.cut, hist |-> hist]))
 =============================================================================
